@@ -274,4 +274,61 @@ example : spaceApply .add false 1 { column := 1, len := 1, nlCount := 0, origCol
                                     isVbraceOpen := false, prevOrigCol := 0 }
             { applies := true, optsAllow := true, relative := false, nextOrigPrevSp := 7 } = 9 := by decide
 
+/-! ## Part 3: a whole line -/
+
+private theorem lineCols_ge (c0 : Nat) (ps : List PairIn) (hr : ∀ p ∈ ps, p.t.relative = false) :
+    allGe c0 (lineCols c0 ps) = true ∧ mono (c0 :: lineCols c0 ps) = true := by
+  induction ps generalizing c0 with
+  | nil => simp [lineCols, allGe, mono]
+  | cons p ps ih =>
+    have hp : p.t.relative = false := hr p (by simp)
+    have hstep : spaceApply p.av0 p.forced p.minSp (p.geom c0) p.t ≥ c0 + p.len := by
+      have h := C19_space_apply_never_left p.av0 p.forced p.minSp (p.geom c0) p.t hp
+      simpa [SpGeom.colAfter, PairIn.geom] using h
+    have ih' := ih (spaceApply p.av0 p.forced p.minSp (p.geom c0) p.t) (fun q hq => hr q (by simp [hq]))
+    have hmonoGe : ∀ (lo hi : Nat) (l : List Nat), lo ≤ hi → allGe hi l = true → allGe lo l = true := by
+      intro lo hi l hle
+      induction l with
+      | nil => simp [allGe]
+      | cons x xs ihx =>
+        simp only [allGe, Bool.and_eq_true, decide_eq_true_eq]
+        intro ⟨h1, h2⟩
+        exact ⟨by omega, ihx h2⟩
+    constructor
+    · simp only [lineCols, allGe, Bool.and_eq_true, decide_eq_true_eq]
+      exact ⟨by omega, hmonoGe _ _ _ (by omega) ih'.1⟩
+    · simp only [lineCols, mono, Bool.and_eq_true, decide_eq_true_eq]
+      exact ⟨by omega, ih'.2⟩
+
+/-- **line_monotone**: along a line `space_text()` hands out non-decreasing columns, each at least the first chunk's column
+    (trailing-comment adjustment not in relative mode), for every sequence of decisions, forced flags, minimum widths, token lengths
+    and original columns -- virtual braces included since fix f9c391f -/
+theorem C19_line_monotone (c0 : Nat) (ps : List PairIn) (hr : ∀ p ∈ ps, p.t.relative = false) :
+    mono (c0 :: lineCols c0 ps) = true ∧ allGe c0 (lineCols c0 ps) = true :=
+  ⟨(lineCols_ge c0 ps hr).2, (lineCols_ge c0 ps hr).1⟩
+
+/-- **reindent cannot wrap on such a line**: when `reindent_line()` moves the first chunk of a line from `c0` to `newc ≥ 1` and
+    shifts a following chunk whose column is `≥ c0` (previous theorem), the `size_t` sum `col + col_delta` does not wrap: the unguarded
+    code computes what the guarded code computes, and the result is `≥ 1` -/
+theorem C19_reindent_shift_exact (c0 newc col minCol : Nat) (hcol : col ≥ c0) (hn : newc ≥ 1) (hb : col + newc < W64) :
+    shiftWrap col ((newc : Int) - (c0 : Int)) minCol = shiftGuarded col ((newc : Int) - (c0 : Int)) minCol ∧
+    shiftWrap col ((newc : Int) - (c0 : Int)) minCol ≥ 1 := by
+  have hW' : W64 = 18446744073709551616 := by decide
+  have hsum : (col : Int) + ((newc : Int) - (c0 : Int)) ≥ 1 := by omega
+  have hlt : (col : Int) + ((newc : Int) - (c0 : Int)) < (W64 : Int) := by
+    have : ((col + newc : Nat) : Int) < (W64 : Int) := by exact_mod_cast hb
+    omega
+  have hmod : ((col : Int) + ((newc : Int) - (c0 : Int))) % (W64 : Int) = (col : Int) + ((newc : Int) - (c0 : Int)) :=
+    Int.emod_eq_of_lt (by omega) hlt
+  have hg : ((newc : Int) - (c0 : Int)) ≥ 0 ∨ (-((newc : Int) - (c0 : Int))).toNat < col := by omega
+  constructor
+  · simp only [shiftWrap, shiftGuarded, hmod, if_pos hg]
+  · simp only [shiftWrap, hmod]
+    omega
+
+/-- before the fix the hypothesis `col ≥ c0` could fail (`C19_old_moves_left_witness`: `b` at column 1 behind a first chunk at column 3
+    that `indent_text()` moves to column 1): the unguarded sum wraps to 2^64 - 1 -/
+theorem C19_reindent_wrap_witness :
+    shiftWrap 1 ((1 : Int) - 3) 7 = 18446744073709551615 ∧ shiftGuarded 1 ((1 : Int) - 3) 7 = 7 := by decide
+
 end Unc
